@@ -2,20 +2,28 @@
 
 package perio
 
-import "fmt"
+import (
+	"fmt"
+	"sort"
+	"strings"
+)
 
 // VEvtCh exposes the event channel (virtual capacity overrides, naming).
 func (s *Server) VEvtCh() chan Event { return s.evtCh }
 
-// VSummary: registered (period, seid, urr) triples, for the scheduler's global state key.
+// VSummary: registered (period, seid, urr) triples, sorted, for the scheduler's global state key.
 func (s *Server) VSummary() string {
-	out := ""
+	var l []string
 	for p, g := range s.perioList {
-		n := 0
-		for _, us := range g.urrids {
-			n += len(us)
+		for seid, us := range g.urrids {
+			for u := range us {
+				l = append(l, fmt.Sprintf("%v/%d/%d", p, seid, u))
+			}
 		}
-		out += fmt.Sprintf("%v:%d/%d;", p, len(g.urrids), n)
+		if len(g.urrids) == 0 {
+			l = append(l, fmt.Sprintf("%v/-", p))
+		}
 	}
-	return out
+	sort.Strings(l)
+	return strings.Join(l, ";")
 }
